@@ -308,6 +308,20 @@ def check_case(chk, name, text, opts, found, ignore, par):
             wantq = par.ions.get(g.residue_type, par.charge.get(g.type, 0))
             if g.charge != wantq:
                 found.append((f"hetero-charge:{g.type}", f"{name} {cname}: {g.label} ({g.type}) has charge {g.charge}, configured {wantq}", rep({"group": g.label})))
+    # ---- titratable hetero groups: each one of the conformation is in the averaged container and has its own summary row
+    if len(mol.conformation_names) == 1:
+        conf = mol.conformations[mol.conformation_names[0]]
+        # (groups penalised by covalent coupling inside a ligand are dropped from the summary by design: one group per coupled system)
+        het = [g for g in conf.groups if g.atom.type == "hetatm" and g.titratable and not g.coupled_titrating_group]
+        if het:
+            avr_labels = collections.Counter(g.label for g in mol.conformations["AVR"].groups if g.atom.type == "hetatm" and g.titratable and not g.coupled_titrating_group)
+            want_labels = collections.Counter(g.label for g in het)
+            srows = collections.Counter(lab for lab, _pk, _mp in summary_rows(structures.pka_text(mol)))
+            for lab, n_ in want_labels.items():
+                if avr_labels.get(lab, 0) != n_ or srows.get(lab, 0) != n_:
+                    found.append(("hetero-group-missing-from-report", f"{name}: {n_} titratable hetero group(s) labelled {lab.strip()!r} in the conformation, {avr_labels.get(lab, 0)} in the "
+                                  f"averaged results, {srows.get(lab, 0)} summary row(s)", rep({"label": lab})))
+                    break
     # ---- summary (first conformation's model for single-model files; AVR lists the average)
     if len(mol.conformation_names) == 1:
         cname = mol.conformation_names[0]
@@ -362,6 +376,11 @@ def run(chk: common.Check):
     cases.append(("1HPX chain A blank, -c ' '", blank, ["-c", " "]))
     cases.append(("1HPX chain A blank, -c B", blank, ["-c", "B"]))
     cases.append(("3SGB-subset two models", structures.as_models([structures.read("3SGB-subset.pdb")] * 2), []))
+    # two copies of one ligand in ONE chain (same residue name and atom names, different residue numbers)
+    t4 = structures.read("4DFR.pdb")
+    one = [l for l in t4.splitlines() if structures.is_atom(l) and l[16] in " A" and l[17:20] != "HOH" and (l[21] == "A" or l[17:20] == "MTX")]
+    one = [(l[:16] + " " + l[17:21] + "A" + " 900" + l[26:]) if (l[17:20] == "MTX" and l[21] == "B") else (l[:16] + " " + l[17:]) for l in one]
+    cases.append(("4DFR chain A with both methotrexates as chain A (161 and 900)", "\n".join(one) + "\nEND\n", []))
     mols = []
     pcases = []
     for d, t, opts in cases:
